@@ -39,6 +39,7 @@ type PktzCase struct {
 	AbsSendTime int      `json:"abs_send_time"` // 0 = off, 1..14 = extension id
 	Payloader   string   `json:"payloader"`
 	Ops         []PktzOp `json:"ops"`
+	ClockZone   int      `json:"clock_zone_s,omitempty"` // the injected clock returns times in a fixed zone this many seconds east of UTC
 }
 
 var subC06 = register("C06", "train", checkC06)
@@ -133,7 +134,7 @@ func checkC06(r *run, c *PktzCase) (CaseInfo, error) {
 	}
 	pk := rtp.NewPacketizer(c.MTU, c.PT, c.SSRC, sp, seq, 90000)
 	var now int64
-	if !rtp.VerifSetPacketizerClock(pk, func() time.Time { return time.Unix(0, now) }) {
+	if !rtp.VerifSetPacketizerClock(pk, func() time.Time { return inZone(time.Unix(0, now), c.ClockZone) }) {
 		return ci, failf("hook: NewPacketizer did not return the library's packetizer")
 	}
 	if c.AbsSendTime != 0 {
@@ -149,6 +150,13 @@ func checkC06(r *run, c *PktzCase) (CaseInfo, error) {
 		interleaved, wraps bool
 		seenOther          bool
 	)
+	// every returned packet belongs to the caller: its serialisation must not change through later calls
+	type keptPkt struct {
+		p     *rtp.Packet
+		wire  []byte
+		op, j int
+	}
+	var kept []keptPkt
 	if c.SeqMode == "fixed" {
 		haveSeq, nextSeq = true, c.SeqStart
 	}
@@ -221,6 +229,7 @@ func checkC06(r *run, c *PktzCase) (CaseInfo, error) {
 				if q.SequenceNumber != p.SequenceNumber || q.Timestamp != p.Timestamp || q.SSRC != c.SSRC || q.PayloadType != c.PT || q.Version != 2 || q.Marker != p.Marker {
 					return ci, failf("op %d: padding packet %d changes on the wire", i, j)
 				}
+				kept = append(kept, keptPkt{p, b, i, j})
 			}
 		case "packetize":
 			payload := expand(op.Seed, 0, op.PayloadLen)
@@ -307,9 +316,19 @@ func checkC06(r *run, c *PktzCase) (CaseInfo, error) {
 				if a, bb := pktObs(p), pktObs(&q); a != bb {
 					return ci, failf("op %d: packet %d parses back differently:\n sent:   %s\n parsed: %s", i, j, a, bb)
 				}
+				kept = append(kept, keptPkt{p, b, i, j})
 			}
 			acc += op.Samples
 		}
+	}
+	for _, k := range kept {
+		b, err := k.p.Marshal()
+		if err != nil || !bytes.Equal(b, k.wire) {
+			return ci, failf("packet %d returned by op %d changed after later calls on the packetizer (%d ops in all): it serialised to %s, now to %s (err %v)", k.j, k.op, len(c.Ops), hb(k.wire), hb(b), err)
+		}
+	}
+	if len(kept) > 0 && kept[0].op < len(c.Ops)-1 {
+		ci.class("earlier-packets-rechecked-after-later-calls")
 	}
 	ci.Nontrivial = pktCalls >= 2 && multi >= 1 && interleaved
 	if wraps {
@@ -336,6 +355,10 @@ func genPktzCase(t *rapid.T) *PktzCase {
 	if genBool(t, "abs") {
 		c.AbsSendTime = rapid.IntRange(1, 14).Draw(t, "absid")
 	}
+	if rapid.IntRange(0, 3).Draw(t, "clockzone") == 0 {
+		c.ClockZone = rapid.SampledFrom([]int{3600, -28800, 19800, 50400, -43200, 1172}).Draw(t, "clockzonev")
+	}
+	prevClock := int64(-1)
 	budget := int(c.MTU) - 12 - 8
 	nops := rapid.IntRange(1, 10).Draw(t, "nops")
 	for i := 0; i < nops; i++ {
@@ -362,6 +385,14 @@ func genPktzCase(t *rapid.T) *PktzCase {
 			op.Samples = genU32(t, "samples")
 			// instants between 1970 and 2036
 			op.ClockNs = rapid.Int64Range(0, 2085978496*1_000_000_000-1).Draw(t, "clock")
+			if prevClock >= 0 && rapid.IntRange(0, 2).Draw(t, "clocknear") == 0 {
+				// a realistic stream: the next frame a little later (or at the very same instant)
+				op.ClockNs = prevClock + rapid.SampledFrom([]int64{0, 1, 3814, 3815, 3816, 1_000_000, 33_333_333, 1_000_000_000, 64_000_000_000}).Draw(t, "clockstep")
+				if op.ClockNs >= 2085978496*1_000_000_000 {
+					op.ClockNs = prevClock
+				}
+			}
+			prevClock = op.ClockNs
 			if c.Payloader == "stub" {
 				nf := rapid.IntRange(0, 6).Draw(t, "nfrags")
 				for k := 0; k < nf; k++ {
@@ -378,7 +409,7 @@ func genPktzCase(t *rapid.T) *PktzCase {
 	return c
 }
 
-const ruleC06 = "rapid draws a packetizer configuration (MTU 64-65535 biased to 64,65,100,267,1200,1500; PT; SSRC; fixed sequencer with start biased to 65530-65535/0 or random sequencer; abs-send-time off or id 1-14 with an injected clock; payloader in {G711,G722,Opus,VP8+-pid,VP9 flexible/non-flexible,H264+-STAP-A,H265+-DONL,AV1, scripted stub}) and 1-10 operations Packetize(non-empty payload, samples)/SkipSamples/GeneratePadding(0-5); one op in six is 'steered': its sample count is computed at run time from the learned first timestamp so that the next timestamp is exactly 0xFFFFFFFF, 0 or 1. Oracle: spy on the payloader (fragments unchanged and in order), sequence/timestamp model (learned first values), fixed fields, marker, abs-send-time = exact 6.18 value of the injected instant, MarshalSize<=MTU, marshal/parse equality, padding packets valid padding-only RTP. Non-trivial = >=2 productive Packetize calls, one with >=2 packets, with a Skip/Padding before one of them; distinct = FNV-64 of the JSON case"
+const ruleC06 = "rapid draws a packetizer configuration (MTU 64-65535 biased to 64,65,100,267,1200,1500; PT; SSRC; fixed sequencer with start biased to 65530-65535/0 or random sequencer; abs-send-time off or id 1-14 with an injected clock (instants uniform in 1970-2036 or a small step after the previous call's, in the default or a fixed-offset zone); payloader in {G711,G722,Opus,VP8+-pid,VP9 flexible/non-flexible,H264+-STAP-A,H265+-DONL,AV1, scripted stub}) and 1-10 operations Packetize(non-empty payload, samples)/SkipSamples/GeneratePadding(0-5); one op in six is 'steered': its sample count is computed at run time from the learned first timestamp so that the next timestamp is exactly 0xFFFFFFFF, 0 or 1. Oracle: spy on the payloader (fragments unchanged and in order), sequence/timestamp model (learned first values), fixed fields, marker, abs-send-time = exact 6.18 value of the injected instant, MarshalSize<=MTU, marshal/parse equality, padding packets valid padding-only RTP; every packet returned earlier still serialises to the same bytes after all later calls. Non-trivial = >=2 productive Packetize calls, one with >=2 packets, with a Skip/Padding before one of them; distinct = FNV-64 of the JSON case"
 
 func TestC06(t *testing.T) {
 	r := begin(t, "C06", "exploration", ruleC06)
